@@ -4,7 +4,7 @@ use c14_ops::{digest, ops, PARALLEL_BUILD};
 use std::io::{BufRead, Write};
 use vh_core::engine::Tape;
 
-const POOLS: [usize; 10] = [1, 2, 3, 5, 6, 7, 8, 12, 16, 33];
+const POOLS: [usize; 14] = [1, 2, 3, 4, 5, 6, 7, 8, 12, 16, 24, 32, 33, 64];
 
 fn main() {
     assert!(PARALLEL_BUILD, "c14p must be built with the parallel feature");
